@@ -729,3 +729,51 @@ fn good_value_with_mistakes(w: &World, ty: &Ty, d: &mut D, depth: usize, st: &mu
         _ => good_value(w, ty, d, depth, st),
     }
 }
+
+pub const HOSTILE: &[&str] = &[
+    "e", "i", "x", "len", "errors", "default", "skip", "map", "with", "multiple", "flatten", "rename", "ident_", "item", "items", "lit",
+    "value", "input", "r#type", "r#fn", "r#match", "attr", "attrs_", "data_", "field", "name", "path", "err", "result", "val", "r#mod", "body", "meta", "inner", "nested",
+];
+
+/// Replace field names by names that collide with darling's option words, with plausible locals of
+/// generated code, or that are raw identifiers (C20 only: nothing is run, so flatten chains need no
+/// global uniqueness - only distinct names inside one receiver).
+pub fn hostile_rename(specs: &mut [Spec], d: &mut D) {
+    for s in specs.iter_mut() {
+        // names that are magic for the receiver's trait keep their special meaning: not "ordinary" names
+        let magic: &[&str] = match s.tr {
+            Trait::FromMeta => &[],
+            Trait::FromDeriveInput => &["ident", "attrs", "vis", "generics", "data"],
+            Trait::FromField => &["ident", "attrs", "vis", "ty"],
+            Trait::FromVariant => &["ident", "attrs", "discriminant", "fields"],
+            Trait::FromTypeParam => &["ident", "attrs", "bounds", "default"],
+            Trait::FromAttributes => &["ident", "attrs"],
+        };
+        let rename_fields = |fs: &mut Vec<Field>, d: &mut D| {
+            let mut used: Vec<String> = vec![];
+            for f in fs.iter_mut() {
+                if d.ratio(2, 3) {
+                    let mut n = d.pick(HOSTILE).to_string();
+                    if magic.contains(&n.as_str()) {
+                        n = format!("{}_", n);
+                    }
+                    if used.contains(&n) {
+                        n = format!("{}_{}", n.trim_start_matches("r#"), used.len());
+                    }
+                    f.rust_name = n;
+                }
+                used.push(f.rust_name.clone());
+            }
+        };
+        match &mut s.body {
+            Body::Struct(fs) => rename_fields(fs, d),
+            Body::Enum(vs) => {
+                for v in vs.iter_mut() {
+                    if let VShape::Struct(fs) = &mut v.shape {
+                        rename_fields(fs, d);
+                    }
+                }
+            }
+        }
+    }
+}
